@@ -162,6 +162,18 @@ def coq_prop(prop_file, timeout=900):
     return res
 
 
+def coqchk(prop_file, timeout=2400):
+    """coqchk -o on the compiled property file: independent checker; ok iff it succeeds and reports no axioms,
+    no type-in-type, no unsafe fixpoints, no assumed positivity."""
+    with Lock("build"):
+        rc, out, err, dt = sh(["coqchk", "-o", "-silent"] + coq_args() + [f"Ctap.{prop_file}"], cwd=COQ, timeout=timeout)
+    text = out + err
+    summ = text[text.find("CONTEXT SUMMARY"):] if "CONTEXT SUMMARY" in text else text[-1500:]
+    clean = all(re.search(pat + r"\s*<none>", summ) for pat in
+                [r"Axioms:", r"relying on type-in-type:", r"relying on unsafe \(co\)fixpoints:", r"positivity is assumed:"])
+    return {"ok": rc == 0 and clean, "summary": " ".join(summ.split()), "log": text[-3000:], "wall": dt}
+
+
 def coq_args():
     args = []
     for line in open(os.path.join(COQ, "_CoqProject")):
